@@ -740,6 +740,41 @@ def w9_panic_args(text: str, report: DropReport, item: str) -> str:
     return text
 
 
+def format_one_arg(text: str, fname: str, report: DropReport, item: str) -> str:
+    """W6b: `format!(TEMPLATE, ARG)` with a literal template and exactly one argument -> `FNAME(TEMPLATE, &(ARG))`, a stand-in
+    whose result is an uninterpreted function of the template text and the argument's text (what `format!` computes from
+    them is not modelled; that nothing else enters is)."""
+    fr = R.Frag(text)
+    ct = fr.ct
+    cnt = 0
+    i = 0
+    while i < len(ct) - 2:
+        if ct[i].kind == "ident" and ct[i].text == "format" and ct[i + 1].text == "!" and ct[i + 2].text in R.OPEN:
+            e = R.match_close(ct, i + 2)
+            if ct[i + 3].kind != "str" or ct[i + 4].text != ",":
+                raise ExtractError(f"{item}: W6b needs `format!(\"literal\", arg)`")
+            # exactly one argument: no further comma at depth 0
+            k = i + 5
+            while k < e:
+                if ct[k].text in R.OPEN:
+                    k = R.match_close(ct, k) + 1
+                    continue
+                if ct[k].text == "," and k != e - 1:
+                    raise ExtractError(f"{item}: W6b handles one argument only")
+                k += 1
+            last = e - 1 if ct[e - 1].text != "," else e - 2
+            arg = text[ct[i + 5].start:ct[last].end]
+            fr.replace(ct[i].start, ct[e].end, f"{fname}({ct[i + 3].text}, &({arg}))")
+            cnt += 1
+            i = e + 1
+            continue
+        i += 1
+    if cnt:
+        report.add("W6b", item, f"`format!(\"..\", arg)` -> `{fname}(\"..\", &(arg))`", cnt)
+        return fr.apply()
+    return text
+
+
 def w6_message_text(text: str, report: DropReport, item: str) -> str:
     text = strip_macro_calls(text, ["format"], "fmt_opaque()", report, item, "W6")
     # "lit".to_string()  /  String::from("lit")  /  "lit".to_owned()  / "lit".into()
@@ -1176,6 +1211,8 @@ class Unit:
             sink = icfg.get("yield_sink") or self.cfg.get("yield_sink")
             if sink:
                 text = rewrite_yield(text, sink, self.report, itemname)
+            if icfg.get("format_one_arg"):
+                text = format_one_arg(text, icfg["format_one_arg"], self.report, itemname)
             if icfg.get("w6", self.cfg.get("w6", False)):
                 text = w6_message_text(text, self.report, itemname)
             if icfg.get("drop_cfg_features"):
